@@ -25,6 +25,7 @@ NETS = {
     "chain3": dict(pools={"A": 3, "B": 3}, inner=({"A": -1, "B": 1}, ["A"]), inn=["A"], out=["B"]),
     "merge": dict(pools={"A": 1, "B": 1, "C": 2}, inner=({"A": -1, "B": -1, "C": 1}, ["A", "B"]), inn=["A", "B"], out=["C"]),
     "split": dict(pools={"C": 2, "A": 1, "B": 1}, inner=({"C": -1, "A": 1, "B": 1}, ["C"]), inn=["C"], out=["A", "B"]),
+    "two_steps": dict(pools={"A": 2, "B": 2, "C": 2}, inner=({"A": -1, "B": 1}, ["A"]), inner2=({"B": -1, "C": 1}, ["B"], (1, 0)), inn=["A"], out=["C"]),
     # species declared in non-alphabetical order with asymmetric label counts (involutive maps only, see the open finding)
     "merge_qp": dict(pools={"Q": 2, "P": 1, "R": 3}, inner=({"Q": -1, "P": -1, "R": 1}, ["Q", "P"]), inn=["Q", "P"], out=["R"], involutive=True),
     "split_ts": dict(pools={"R": 3, "T": 2, "S": 1}, inner=({"R": -1, "T": 1, "S": 1}, ["R"]), inn=["R"], out=["T", "S"], involutive=True),
@@ -71,6 +72,12 @@ class Lin(Scenario):
         base.add_reaction("v1", ma1 if len(sub_args) == 1 else ma2, args=[*sub_args, "k1"], stoichiometry=st)
         maps["v1"] = list(self.lmap)
         fluxes["v1"] = v
+        if "inner2" in spec:  # a second mapped reaction downstream, with a fixed swap
+            st2, sub2, map2 = spec["inner2"]
+            base.add_parameter("k2", v / c[sub2[0]])
+            base.add_reaction("v2", ma1, args=[*sub2, "k2"], stoichiometry=st2)
+            maps["v2"] = list(map2)
+            fluxes["v2"] = v
         for p in spec["out"]:
             base.add_parameter(f"kout_{p}", v / c[p])
             base.add_reaction(f"vout_{p}", ma1, args=[p, f"kout_{p}"], stoichiometry={p: -1})
